@@ -206,8 +206,20 @@ impl Emit {
     /// Rust type expression for `t` with fetch lifetime 'a
     fn ty(&mut self, t: &Ty, case: usize) -> String {
         match t {
-            Ty::Read(r) => format!("Read<'a, R<{}>>", r),
-            Ty::Write(r) => format!("Write<'a, R<{}>>", r),
+            // the same member type through different spellings: plain path, a type-position macro,
+            // a generic alias, a fully qualified path
+            Ty::Read(r) => match r % 4 {
+                1 => format!("Rd!('a, R<{}>)", r),
+                2 => format!("RdA<'a, {}>", r),
+                3 => format!("::shred::Read<'a, R<{}>>", r),
+                _ => format!("Read<'a, R<{}>>", r),
+            },
+            Ty::Write(r) => match r % 4 {
+                2 => format!("Wr!('a, R<{}>)", r),
+                3 => format!("WrA<'a, {}>", r),
+                0 => format!("::shred::Write<'a, R<{}>>", r),
+                _ => format!("Write<'a, R<{}>>", r),
+            },
             Ty::ReadExpect(r) => format!("ReadExpect<'a, R<{}>>", r),
             Ty::WriteExpect(r) => format!("WriteExpect<'a, R<{}>>", r),
             Ty::ReadH(r, k) => format!("Read<'a, R<{}>, H<{}>>", r, k),
@@ -361,7 +373,7 @@ pub fn emit_program(descs: &[(Ty, Vec<u16>)]) -> String {
         let list = |v: Vec<usize>| format!("&{:?}", v);
         let masks: Vec<String> = masks_for(t, stream).iter().map(|m| format!("{:#x}", m)).collect();
         body.push_str(&format!(
-            "    {{\n        static E: Expect = Expect {{ name: \"T{i}\", descriptor: \"{desc}\", reads: {r}, writes: {w}, provides: {p}, optional: {o}, handlers: {h}, masks: &[{m}] }};\n        check_type(rep, &E,\n            (<T{i} as SystemData>::reads(), <T{i} as SystemData>::writes()),\n            &|world: &World, probe: &mut dyn FnMut()| {{ let v: T{i} = SystemData::fetch(world); probe(); drop(v); }},\n            &|world: &mut World| {{ <T{i} as SystemData>::setup(world); }});\n    }}\n",
+            "    {{\n        static E: Expect = Expect {{ name: \"T{i}\", descriptor: \"{desc}\", reads: {r}, writes: {w}, provides: {p}, optional: {o}, handlers: {h}, masks: &[{m}] }};\n        accessor_agrees::<T{i}>(rep, &E);\n        check_type(rep, &E,\n            (<T{i} as SystemData>::reads(), <T{i} as SystemData>::writes()),\n            &|world: &World, probe: &mut dyn FnMut()| {{ let v: T{i} = SystemData::fetch(world); probe(); drop(v); }},\n            &|world: &mut World| {{ <T{i} as SystemData>::setup(world); }});\n    }}\n",
             i = i,
             desc = desc,
             r = list(reads(t)),
@@ -381,7 +393,7 @@ pub fn emit_program(descs: &[(Ty, Vec<u16>)]) -> String {
         let other = 47usize;
         let payload = ["u64", "u32", "(u8, u8)"][k % 3];
         local.push_str(&format!(
-            "    {{\n        #[derive(Default)]\n        struct Local({payload});\n        type TL<'a> = (Read<'a, Local>, Write<'a, R<{other}>>);\n        let want_r = vec![ResourceId::new::<Local>()];\n        let want_w = vec![ResourceId::new::<R<{other}>>()];\n        rep.types += 1;\n        if <TL as SystemData>::reads() != want_r || <TL as SystemData>::writes() != want_w {{\n            rep.failures.push((\"Local{k}\".to_string(), \"{{\\\"Tuple\\\":[{{\\\"Read\\\":0}}]}}\".to_string(), \"a tuple over the block-local resource type `Local` (same type_name as a sibling block's type) reports another type's resources\".to_string()));\n        }}\n        let mut world = World::empty();\n        <TL as SystemData>::setup(&mut world);\n        if !world.has_value::<Local>() {{\n            rep.failures.push((\"Local{k}\".to_string(), \"{{\\\"Tuple\\\":[{{\\\"Read\\\":0}}]}}\".to_string(), \"setup of a tuple over a block-local resource type did not create it\".to_string()));\n        }}\n    }}\n",
+            "    {{\n        #[derive(Default)]\n        struct Local({payload});\n        type TL<'a> = (Read<'a, Local>, Write<'a, R<{other}>>);\n        let want_r = vec![ResourceId::new::<Local>()];\n        let want_w = vec![ResourceId::new::<R<{other}>>()];\n        rep.types += 1;\n        if <TL as SystemData>::reads() != want_r || <TL as SystemData>::writes() != want_w {{\n            rep.failures.push((\"Local{k}\".to_string(), \"{{\\\"Tuple\\\":[{{\\\"Read\\\":0}}]}}\".to_string(), \"a tuple over the block-local resource type `Local` (same type_name as a sibling block's type) reports another type's resources\".to_string()));\n        }}\n        {{\n            use shred::Accessor;\n            let acc = <shred::StaticAccessor<TL> as Accessor>::try_new().expect(\"static accessor\");\n            if acc.reads() != want_r || acc.writes() != want_w {{\n                rep.failures.push((\"Local{k}\".to_string(), \"{{\\\"Tuple\\\":[{{\\\"Read\\\":0}}]}}\".to_string(), \"the accessor a system over this data hands to the dispatcher reports another type's resources for the block-local resource type `Local` (same type_name as a sibling block's type)\".to_string()));\n            }}\n        }}\n        let mut world = World::empty();\n        <TL as SystemData>::setup(&mut world);\n        if !world.has_value::<Local>() {{\n            rep.failures.push((\"Local{k}\".to_string(), \"{{\\\"Tuple\\\":[{{\\\"Read\\\":0}}]}}\".to_string(), \"setup of a tuple over a block-local resource type did not create it\".to_string()));\n        }}\n    }}\n",
             payload = payload,
             other = other,
             k = k
@@ -389,7 +401,7 @@ pub fn emit_program(descs: &[(Ty, Vec<u16>)]) -> String {
     }
     body.push_str(&local);
     format!(
-        "// generated by vcheck (C06); do not edit\n#![allow(non_camel_case_types, clippy::all)]\nuse std::marker::PhantomData;\nuse shred::{{Read, ReadExpect, ResourceId, SystemData, World, Write, WriteExpect}};\nuse crate::rt::*;\n\npub trait Bundle<'a> {{\n    type Data: SystemData<'a>;\n}}\n\n#[derive(SystemData)]\npub struct GOnlyB<'a, T: SystemData<'a>> {{\n    pub inner: T,\n    pub m: PhantomData<&'a ()>,\n}}\n#[derive(SystemData)]\npub struct GOnlyW<'a, T>\nwhere\n    T: SystemData<'a>,\n{{\n    pub inner: T,\n    pub m: PhantomData<&'a ()>,\n}}\n\n{}\n{}\npub fn run(rep: &mut Report) {{\n{}}}\n",
+        "// generated by vcheck (C06); do not edit\n#![allow(non_camel_case_types, clippy::all)]\nuse std::marker::PhantomData;\nuse shred::{{Read, ReadExpect, ResourceId, SystemData, World, Write, WriteExpect}};\nuse crate::rt::*;\n\nmacro_rules! Rd {{ ($l:lifetime, $t:ty) => {{ Read<$l, $t> }}; }}\nmacro_rules! Wr {{ ($l:lifetime, $t:ty) => {{ Write<$l, $t> }}; }}\npub type RdA<'a, const N: usize> = Read<'a, R<N>>;\npub type WrA<'a, const N: usize> = Write<'a, R<N>>;\n\npub trait Bundle<'a> {{\n    type Data: SystemData<'a>;\n}}\n\n#[derive(SystemData)]\npub struct GOnlyB<'a, T: SystemData<'a>> {{\n    pub inner: T,\n    pub m: PhantomData<&'a ()>,\n}}\n#[derive(SystemData)]\npub struct GOnlyW<'a, T>\nwhere\n    T: SystemData<'a>,\n{{\n    pub inner: T,\n    pub m: PhantomData<&'a ()>,\n}}\n\n{}\n{}\npub fn run(rep: &mut Report) {{\n{}}}\n",
         e.defs, aliases, body
     )
 }
